@@ -62,6 +62,23 @@ def gen(rng, tier, no, wide=False):
             fl.append([k, rng.random() < 0.6])
         else:
             fl.append([k, rng.choice(G.MEMCPY_NAMES + ["Memset (Device)", "no such type"])])
+    late = False
+    if len(steps) >= 3 and rng.random() < 0.2:
+        # a selection by position that depends on what an earlier member left over: an operator name that only occurs in
+        # the last profiler step that survives loading (the very last one is trimmed), then "the first iteration present"
+        for ev in case["ranks"].values():
+            ps = sorted((e for e in ev if str(e.get("name", "")).startswith("ProfilerStep#") and "dur" in e), key=lambda e: e["ts"])
+            if len(ps) < 3:
+                continue
+            lo, hi = ps[-2]["ts"], ps[-2]["ts"] + ps[-2]["dur"]
+            inside = [e for e in ev if e.get("cat") == "cpu_op" and "dur" in e and lo <= e["ts"] < hi]
+            if inside:
+                rng.choice(inside)["name"] = "aten::only_late"
+                late = True
+        if late:
+            fl = [["name", True, "aten::only_late$"], ["iterIndex", [0]]]
+            if rng.random() < 0.3:
+                fl.append(["cpu", True])
     # how each filter object is made: the list argument or a bare int, FirstIterationFilter for index [0], the symbol
     # table handed to the constructor instead of the call
     how = []
@@ -75,7 +92,7 @@ def gen(rng, tier, no, wide=False):
             h = "ctor_table"
         how.append(h)
     case["params"] = {"filters": fl, "how": how, "with_rank_col": rng.random() < 0.5, "decoded": rng.choice([None, None, "long", "short"]),
-                      "composite": rng.random() < 0.7, "twice": rng.random() < 0.3, "used_before": rng.random() < 0.3}
+                      "composite": late or rng.random() < 0.7, "twice": rng.random() < 0.3, "used_before": rng.random() < 0.3}
     return case
 
 
@@ -169,9 +186,11 @@ def observe(case):
                         f(wdf.copy(), wtable if t is not None else None)
                     except Exception:  # noqa: BLE001
                         pass
-            tabs = {id(t) for _, t in built}
-            if p["composite"] and len(tabs) == 1:
-                out = F.CompositeFilter([f for f, _ in built])(df, built[0][1])
+            # members that never look at the table (iteration, position, rank, time range) go with any table
+            sens = [t for (f, t), sp in zip(built, specs) if sp[0] in ("name", "gpu", "cpu", "memcopy")]
+            tabs = {id(t) for t in sens}
+            if p["composite"] and len(tabs) <= 1:
+                out = F.CompositeFilter([f for f, _ in built])(df, sens[0] if sens else None)
                 canon["mode"] = "composite"
             else:
                 out = df
